@@ -79,10 +79,14 @@ claimed = {
          "Request interleavings over ticks are outside the technique; the finding's demonstration is run in the thorough tier."),
    design="5 (C17)", technique="deductive verification: WP-style VC generation over go/ssa + SMT (site obligations at call sites, loop invariant with entry-state reference)"),
  "C11": dict(
-   text=("memRangeOverlap (the predicate deciding whether a copy must flush dirty buffers) is proved equivalent to interval intersection for all "
-         "non-empty ranges over the full uint64 domain. The splitting loops and completion bookkeeping are not yet under contract."),
-   note=TB + "Only the overlap predicate is covered so far.",
-   design="5 (C11)", technique="deductive verification: WP-style VC generation over go/ssa + SMT"),
+   text=("Under contract: memRangeOverlap (the interval-intersection predicate over the full uint64 domain); needFlushing (true exactly when some buffer with dirty L2 data overlaps the copy range, any number of buffers); "
+         "the page-split loops of the default H2D and D2H paths and of the direct-storage H2D path: the chunks tile the source (offset + sizeLeft = length, address = base + offset in every iteration) and the site obligation at "
+         "each hand-over proves that the chunk is source[offset : offset+n] (resp. the destination window), goes to page.PAddr + (addr - page.VAddr) for the page looked up for that very address, and never crosses the end of that page; "
+         "the H2D path keeps the requests already awaiting transmission. The DMA engine's completion bookkeeping and the direct-storage D2H path are not yet under contract."),
+   note=(TB + "The page table, the allocator behind its interface, message constructors, bytes/binary and tracing are external (extern declarations: frame-only, results unconstrained; constructors return fresh objects). "
+         "Wrap-around of address + size is modelled as the machine computes it."),
+   design="5 (C11)", technique="deductive verification: WP-style VC generation over go/ssa + SMT (loop invariants and call-site obligations)"),
+
 }
 reasons = {
  "C01": "subject is GPU machine code vs a host reference over the whole platform matrix; no contract on a Go function states it (its contract-reachable mechanisms are claimed under C03/C04/C06/C07/C08/C11/C13)",
